@@ -25,7 +25,7 @@ import itertools
 
 from .. import AnalysisError
 from ..callgraph import DIRECT, REACTOR, REACTOR_ROOT_METHODS
-from ..flow import Flow
+from ..flow import Flow, walk_no_nested
 from ..report import Report
 from ..util import where, mwhere, norm, call_name
 from ..variants import V
@@ -1043,6 +1043,7 @@ class _Dispatch(Flow):
         super().__init__()
         self.m, self.f, self.watch = model, func, watch
         self.seen = {}
+        self._alias = None
 
     def _member(self, e):
         if isinstance(e, ast.Attribute):
@@ -1051,16 +1052,50 @@ class _Dispatch(Flow):
                 return sym[len(FUNC) + 1 :]
         return None
 
+    def _aliases(self):
+        """locals bound (only ever) to <name>.func: they stand for the request's function as well"""
+        if self._alias is None:
+            good, stores = {}, collections.Counter()
+            for n in walk_no_nested(self.f.node):
+                if isinstance(n, ast.Name) and isinstance(n.ctx, (ast.Store, ast.Del)):
+                    stores[n.id] += 1
+                elif isinstance(n, ast.Assign) and len(n.targets) == 1 and isinstance(n.targets[0], ast.Name) and self._is_func_attr(n.value):
+                    good[n.targets[0].id] = good.get(n.targets[0].id, 0) + 1
+            params = {a.arg for a in ast.walk(self.f.node.args) if isinstance(a, ast.arg)}
+            self._alias = {nm for nm, k in good.items() if stores[nm] == k and nm not in params}
+        return self._alias
+
+    @staticmethod
+    def _is_func_attr(e):
+        return isinstance(e, ast.Attribute) and e.attr == 'func' and isinstance(e.value, ast.Name)
+
+    def _subject(self, e):
+        """is <e> the function member of the request (<name>.func or a local that only ever holds it)?"""
+        return self._is_func_attr(e) or (isinstance(e, ast.Name) and e.id in self._aliases())
+
+    def _members(self, e):
+        """the set of enums.Func members a collection display denotes, or None"""
+        if isinstance(e, (ast.List, ast.Tuple, ast.Set)):
+            xs = [self._member(x) for x in e.elts]
+            return set(xs) if all(xs) else None
+        return None
+
     def on_test(self, e, st):
-        if isinstance(e, ast.Compare) and len(e.ops) == 1 and isinstance(e.left, ast.Attribute) and e.left.attr == 'func' and isinstance(e.left.value, ast.Name):
-            op, c = e.ops[0], e.comparators[0]
+        # truth of a comparison of the request's function under the assumption "it is member <st>"; both orientations
+        # of ==/!=/is/is not are the same fact (Flow.cond strips `not`, swaps the arms and walks and/or)
+        if isinstance(e, ast.Compare) and len(e.ops) == 1:
+            op, a, b = e.ops[0], e.left, e.comparators[0]
             mem = None
             if isinstance(op, (ast.Eq, ast.NotEq, ast.Is, ast.IsNot)):
-                x = self._member(c)
+                if self._subject(a) and not self._subject(b):
+                    x = self._member(b)
+                elif self._subject(b) and not self._subject(a):
+                    x = self._member(a)
+                else:
+                    x = None
                 mem = {x} if x else None
-            elif isinstance(op, (ast.In, ast.NotIn)) and isinstance(c, (ast.List, ast.Tuple, ast.Set)):
-                xs = [self._member(x) for x in c.elts]
-                mem = set(xs) if all(xs) else None
+            elif isinstance(op, (ast.In, ast.NotIn)) and self._subject(a):
+                mem = self._members(b)
             if mem is not None:
                 t = st in mem
                 if isinstance(op, (ast.NotEq, ast.IsNot, ast.NotIn)):
